@@ -53,7 +53,10 @@ class SendExceptionResponse(Contract):
                 if ok and ok[0][2] is a["exc_value"]:
                     post.append(("the traceback text travels with the exception", z3.BoolVal(st.get(a["exc_value"], "_pyroTraceback") is a["tbinfo"])))
                 elif ok:
-                    post.append(("the traceback text travels with the fallback", z3.BoolVal(st.get(ok[0][2], "_pyroTraceback") is a["tbinfo"])))
+                    failed = len([t for t in st.trace if "dumps raises" in t])
+                    tb = st.get(ok[0][2], "_pyroTraceback")
+                    post.append(("the traceback text travels with the fallback; only if the fallback WITH it could not be serialised is it sent without",
+                                 z3.BoolVal(tb is a["tbinfo"] or (failed >= 2 and isinstance(tb, VNone)))))
                 prov = st.get(margs["annotations"], "prov", frozenset(["?"])) if isinstance(margs["annotations"], VObj) else frozenset(["?"])
                 post.append(("C12: annotations = caller-supplied + daemon annotations only (never the thread's response annotations)",
                              z3.BoolVal(prov <= frozenset(["empty", "daemon.annotations()", "caller-supplied"]))))
@@ -66,10 +69,10 @@ class SendExceptionResponse(Contract):
         from_send = bool(snd) and snd[0][1] == "raise"
         ndumps_failed = len([t for t in st.trace if "dumps raises" in t])
         early = [t for t in st.trace if "unknown serializer id" in t or "annotations() raises" in t or "SendingMessage" in t or "__init__@" in t]
-        if ndumps_failed >= 2:
-            early.append("both the exception and the fallback PyroError could not be serialised")
+        if ndumps_failed >= 3:
+            early.append("the exception, the fallback PyroError and the fallback without traceback could all not be serialised")
         return [("at most one send attempted", z3.BoolVal(len(snd) <= 1)),
-                ("fails only if: unknown serializer id, the fallback could not be serialised either, annotations() raised, the reply could not be built, or the send failed",
+                ("fails only if: unknown serializer id, not even the bare fallback could be serialised, annotations() raised, the reply could not be built, or the send failed",
                  z3.BoolVal(from_send or bool(early))),
                 ("a failed send surfaces as a communication error", z3.Implies(z3.BoolVal(from_send), z3.BoolVal(
                     vc.qname in ("Pyro5.errors.ConnectionClosedError", "Pyro5.errors.TimeoutError"))))]
